@@ -36,7 +36,8 @@ class UpdateExtractor(BaseExtractor):
                     for join_table in from_join_tables[1:]:
                         holder.add_read(join_table)
 
-            if segment.type == "keyword" and segment.raw_upper == "UPDATE":
+            if segment.type == "keyword" and segment.raw_upper in ("UPDATE", "ONLY"):
+                # postgres: UPDATE ONLY table
                 tgt_flag = True
                 continue
 
@@ -71,7 +72,7 @@ class UpdateExtractor(BaseExtractor):
                 ):
                     holder.add_read(read_table)
 
-        for tgt_col in columns:
+        for tgt_col in columns if holder.write else []:
             tgt_col.parent = list(holder.write)[0]
             for src_col in tgt_col.to_source_columns(
                 holder.get_alias_mapping_from_table_group(list(holder.read))
